@@ -52,7 +52,7 @@ class Site:
         self.base = base
         self.lay = dict(lay)
         fmt = lay["fmt"]
-        src = vworld.build_dag(DAG, fmt=fmt, trees=TREES)
+        src = vworld.build_dag(DAG, fmt=lay.get("mfmt", fmt), trees=TREES)
         self.M = os.path.join(base, "master")
         self.S = os.path.join(base, "s")
         self.L = os.path.join(self.S, "loc")
@@ -132,7 +132,7 @@ class Site:
         if out["br"] == "ref":
             try:
                 cd.open_repository()
-                out["repo"] = "own-leftover"
+                out["repo"] = "unused"
             except errors.NoRepositoryPresent:
                 out["repo"] = "none"
         else:
@@ -236,9 +236,10 @@ def replay_one(sub, base, path, states):
         name, arg = m.group(1), (m.group(2) or "").strip('"')
         if name not in ("Reconfigure", "Upgrade", "UpgradeShared"):
             sub.machinery("unknown action " + act)
-        # a call the model says never returns gets 15 s, any other 120 s (then it is reported as diverging)
+        # a call the model says never returns gets 15 s, any other 240 s (then it is reported as diverging)
         signal.signal(signal.SIGALRM, _alarm)
-        signal.alarm(15 if st1["last"] == "diverges" else 120)
+        unspecified = name != "Reconfigure" and not l0["pure"]
+        signal.alarm(15 if st1["last"] == "diverges" else (60 if unspecified else 240))
         try:
             if name == "Reconfigure":
                 site.reconfigure(arg)
@@ -272,8 +273,8 @@ def replay_one(sub, base, path, states):
         if rout == "ok" and st1["lay"] != l0:
             sub.nontrivial(repr((sorted(lay0.items()), [tuple(x[:2]) for x in log])))
         c0 = c1
-        if rout == "diverges":
-            break               # an interrupted conversion: nothing further is specified
+        if rout == "diverges" or (unspecified and rout != st1["last"]):
+            break               # an interrupted conversion / an unspecified outcome: nothing further is predicted
     if len(sub.cov["samples"]) < 1 and len(log) >= 2 and all(x[2] == "ok" for x in log):
         sub.sample({"initial_layout": lay0, "steps": log})
 
@@ -306,15 +307,26 @@ def run(ctx):
         return -sum(1 for _, nid in p[1:] if st(nid)["last"] == "ok")
     ctx.rng.shuffle(paths)
     paths.sort(key=weight)
-    want = (80 if ctx.quick else 2000) if ctx.tier != "tiny" else 10
-    # round-robin over (initial layout kind, first action) so that every transition kind is replayed
+    want = (160 if ctx.quick else 2000) if ctx.tier != "tiny" else 10
+    # round-robin over the kinds of first step so that every transition kind is replayed: reconfigurations by source
+    # layout (with / without pending changes), upgrades by (from, to) format and which components sit at the location
+    def own(l):
+        return l["repo"] in ("own", "unused")
     groups = {}
     for p in paths:
         l0 = st(p[0][1])["lay"]
-        groups.setdefault((l0["tree"], l0["br"], l0["repo"], p[1][0]), []).append(p)
+        m = _label.match(p[1][0])
+        name, arg = m.group(1), (m.group(2) or "").strip('"')
+        if name == "Reconfigure":
+            key = ("R", l0["tree"], l0["br"], l0["repo"], l0["dirty"], arg)
+        elif name == "Upgrade":
+            key = ("U", l0["fmt"], arg, own(l0), l0["tree"])
+        else:
+            key = ("US", l0["sfmt"], arg, l0["repo"] == "shared")
+        groups.setdefault(key, []).append(p)
     picked = []
-    # groups whose first step does something come first
-    keys = sorted(groups, key=lambda k: (min(weight(p[:2]) for p in groups[k]), repr(k)))
+    keys = sorted(groups, key=repr)
+    ctx.cov["first_step_kinds"] = len(keys)
     while len(picked) < want and any(groups[k] for k in keys):
         for k in keys:
             if groups[k] and len(picked) < want:
@@ -323,8 +335,8 @@ def run(ctx):
     ctx.rule("sequences = paths of a transition cover of TLC's state graph of Layouts.tla (88 initial layouts: tree yes/no x branch "
              "local / bound / reference x repository own / shared / none x inside a shared repository or not x 4 formats x "
              "clean / pending changes; <= %d actions of Reconfigure(6 targets), Upgrade(4 formats), UpgradeShared(4 formats)); "
-             "%d cover paths, replayed: %d (round-robin over (initial layout kind, first action), sequences with more effective "
-             "steps first); non-trivial = sequence whose steps change the layout; distinct = (initial layout, actions)"
+             "%d cover paths, replayed: %d (round-robin over the kinds of first step: reconfigurations by source layout and "
+             "pending changes, upgrades by formats and components; sequences with more effective steps first); non-trivial = sequence whose steps change the layout; distinct = (initial layout, actions)"
              % (steps, len(paths), len(picked)))
     core.fork_map(ctx, replay_paths, jobs)
     rows = ctx.collected
